@@ -30,6 +30,7 @@ def typed_values(chk, G, S, w, n_types=5, n_values=2, any_stable=True, max_depth
             x0 = G.value(w, ty, 3, any_stable=any_stable)
             try:
                 xv, x = S.realise(x0)
+                S.R.fix_factories(ty, xv)
             except Exception:
                 chk.note("value-not-realisable")
                 continue
